@@ -358,6 +358,25 @@ func programs(r *vf.Run) []program {
 			}
 		}
 	}
+	// ----- (S) the synthetic documents the other checks generate from (they only generate, this compiles)
+	for _, sd := range []struct{ name, text string }{{"custom-unmarshalers", grammar.CustomSpec}, {"order-sensitive-shapes", grammar.ShapesSpec}, {"component-references", grammar.RefsSpec},
+		{"recursive-defaults", grammar.RecursiveDefaultsSpec}, {"recursive-oddity-1", grammar.RecursiveOddities[0]}, {"reference-cycles", grammar.CyclesSpec}} {
+		for _, ce := range []string{"on", "off"} {
+			sd, ce := sd, ce
+			ps = append(ps, program{ID: "y_" + strings.ReplaceAll(sd.name, "-", "_") + "_" + ce, Group: "synthetic", Spec: []byte(sd.text), Tests: true,
+				Attrs: map[string]string{"synthetic": sd.name, "convenient_errors": ce}, Desc: M{"synthetic_document": sd.name, "convenient_errors": ce},
+				Opts: func() gen.Options {
+					var all []string
+					for _, f := range gen.AllFeatures {
+						all = append(all, f.Name)
+					}
+					o := featureOpts(all, ce)()
+					o.Parser.InferSchemaType = true
+					o.Generator.IgnoreNotImplemented = []string{"all"}
+					return o
+				}})
+		}
+	}
 	// ----- (F) one construct alone: which helper files are written (validators, defaults, ...)
 	// depends on whether ANY type of the document needs them, so a construct that is fine inside a rich
 	// document can break a document made of nothing else (a seeded change dropped the validators file
